@@ -44,3 +44,16 @@ package registry
 //@ func NewDefaultStatusRESTStrategy props C20
 //@   pure
 //@   ensures [flags] typeis(result.RESTCreateUpdateStrategy, "DefaultRESTStrategy") && unbox(result.RESTCreateUpdateStrategy, "DefaultRESTStrategy").namespaced == namespaced && unbox(result.RESTCreateUpdateStrategy, "DefaultRESTStrategy").subStatus
+
+// Which strategy serves which endpoint: the main resource is created and updated through the configured strategy, the
+// status subresource (when there is one and no custom subresource creator replaces it) through the status strategy that
+// wraps the same configured strategy -- so a status update goes through DefaultStatusRESTStrategy.PrepareForUpdate.
+// (Stated for the configuration the gateway uses: no custom subresource creator, whose effects are unknown.)
+//@ const mainS = unbox(result.ObjectREST, "*ObjectREST").Store
+//@ const statusS = unbox(result.SubresourcesREST["status"], "*StatusREST").Store
+//@ func NewResourceREST props C20
+//@   modifies *
+//@   ensures [main_strategy] result1 == nil && o.SubresourceRESTStoreCreater == nil ==> result != nil && typeis(result.ObjectREST, "*ObjectREST") && mainS != nil && mainS.CreateStrategy == o.RESTStrategy && mainS.UpdateStrategy == o.RESTStrategy
+//@   ensures [status_strategy] result1 == nil && o.SubresourceRESTStoreCreater == nil && ("status" in result.SubresourcesREST) ==> o.SubStatus && typeis(result.SubresourcesREST["status"], "*StatusREST") && statusS != nil && statusS != mainS && typeis(statusS.UpdateStrategy, "DefaultStatusRESTStrategy") && unbox(statusS.UpdateStrategy, "DefaultStatusRESTStrategy").RESTCreateUpdateStrategy == o.RESTStrategy
+//@   ensures [no_status_without_flag] result1 == nil && o.SubresourceRESTStoreCreater == nil && !o.SubStatus ==> !("status" in result.SubresourcesREST)
+//@   loop 0: invariant [storage_kept] storage != nil
